@@ -35,9 +35,8 @@ def main():
     calls = revive(json.load(sys.stdin))
     import dateparser
     from dateparser.date import DateDataParser
-    from dateparser.search import search_dates
-    from dateparser.calendars.jalali import JalaliCalendar
-    from dateparser.calendars.hijri import HijriCalendar
+    # dateparser.search and the calendars are imported only when a call needs them: importing dateparser.search builds the search singleton,
+    # which loads every plain language — a history of its own that would hide what depends on the order locales are first loaded in
     out = []
     instances = {}
     for c in calls:
@@ -60,11 +59,14 @@ def main():
                 dd = instances[ikey].get_date_data(c["s"], kw.get("date_formats"))
                 r = [canon(dd.date_obj), dd.period, dd.locale]
             elif fn == "search":
+                from dateparser.search import search_dates
                 r = canon(search_dates(c["s"], **kw))
             elif fn == "jalali":
+                from dateparser.calendars.jalali import JalaliCalendar
                 dd = JalaliCalendar(c["s"]).get_date()
                 r = None if dd is None else [canon(dd.date_obj), dd.period]
             elif fn == "hijri":
+                from dateparser.calendars.hijri import HijriCalendar
                 dd = HijriCalendar(c["s"]).get_date()
                 r = None if dd is None else [canon(dd.date_obj), dd.period]
             else:
